@@ -133,9 +133,17 @@ package failsafe
 //@   ensures [C17.copy] fresh(result) && result.mtx == e.mtx && result.attempts == e.attempts && result.retries == e.retries && result.hedges == e.hedges && result.executions == e.executions && result.canceledResult == e.canceledResult && result.ctx == e.ctx && result.cancelFunc == e.cancelFunc && result.isHedge == e.isHedge && result.startTime == e.startTime
 //@   modifies nothing
 
+// C14: the copy-under-lock mechanism. An execution made by CopyWithResult is private to whoever receives it (ghost
+// flag 'copied'); user callbacks must only ever be handed such copies, never the live execution whose guarded fields
+// other goroutines (a Timeout's timer, ExecutionResult.Cancel) write under the lock.
+//@ ghost field (*execution).copied bool
+//@ frozen execution.$copied
+//@ macro userCopy(x) = typeis(x, *failsafe.execution) ==> asref(x, *failsafe.execution).copied
 //@ func (*execution).CopyWithResult
 //@   requires execWellFormed(e) && !held(e.mtx)
 //@   let c := asref(result_0, *execution)
+//@   atexit asref(result_0, *execution).copied := true
+//@   ensures [C14.copy_is_private] asref(result_0, *execution).copied
 //@   ensures [C17.copywithresult] typeis(result_0, *execution) && fresh(c) && c.attempts == e.attempts && c.executions == e.executions && c.retries == e.retries && c.hedges == e.hedges && c.ctx == e.ctx && (result != nil ==> c.lastResult == result.Result && c.lastError == result.Error)
 //@   modifies nothing
 
